@@ -225,6 +225,45 @@ def introspected_names(schema):
     return names
 
 
+def registry(schema):
+    """the schema-level resolver registries (identity of every registered callable)"""
+    return (tuple(sorted((t, f, id(fn)) for t, m in schema.resolvers.items() for f, fn in m.items())),
+            tuple(sorted((t, f, id(fn)) for t, m in schema.subscriptions.items() for f, fn in m.items())),
+            tuple(sorted((t, id(fn)) for t, fn in schema.default_resolvers.items())), id(schema.default_resolver))
+
+
+PROBES = ("{ a { id first_name n } b { b_value } u { __typename } echo_args(k: 1) }", "{ s }")
+
+
+def probe(schema, src):
+    return json.dumps(graphql_blocking(schema, PROBES[src]).response(), sort_keys=True, default=repr)
+
+
+def _new_resolver(root, ctx, info, **kw): return "overridden"      # noqa: E704
+def _new_default(root, ctx, info, **kw): return "overridden-default"   # noqa: E704
+def _new_sub(root, ctx, info, **kw): return None                        # noqa: E704
+
+
+MUTATORS = ("none", "register_resolver on every object field", "register_default_resolver on every object type", "register_subscription on every subscription field")
+
+
+def mutate(schema, how):
+    """what a user does with a derived schema through the public registration API; must never show in the schema it was derived from"""
+    if how == 0:
+        return
+    for name, t in list(schema.types.items()):
+        if not isinstance(t, ObjectType) or is_introspection_type(t):
+            continue
+        if how == 2:
+            schema.register_default_resolver(name, _new_default, allow_override=True)
+            continue
+        for f in t.fields:
+            if how == 1:
+                schema.register_resolver(name, f.name, _new_resolver, allow_override=True)
+            elif how == 3 and t is schema.subscription_type:
+                schema.register_subscription(name, f.name, _new_sub, allow_override=True)
+
+
 def check_step(source, before_attrs, before_sdl, result_schema, op, arg):
     p = closed(result_schema)
     if p:
@@ -273,9 +312,10 @@ def check_step(source, before_attrs, before_sdl, result_schema, op, arg):
     return ""
 
 
-def _op_sequences(src: int, o1: int, a1: int, o2: int, a2: int, o3: int, a3: int) -> bool:
+def _op_sequences(src: int, o1: int, a1: int, o2: int, a2: int, o3: int, a3: int, mut: int = 0) -> bool:
     """
-    pre: 0 <= src < len(SOURCES)
+    pre: 0 <= src < len(SOURCES) and 0 <= mut < len(MUTATORS)
+    pre: mut == 0 or o3 == -1
     pre: 0 <= o1 < 4 and -1 <= o2 < 4 and -1 <= o3 < 4 and (o3 == -1 or o2 >= 0)
     pre: 0 <= a1 < 256 and 0 <= a2 < 256 and 0 <= a3 < 256
     pre: shard_of(o1 * 5 + o2 + 1)
@@ -302,11 +342,13 @@ def _op_sequences(src: int, o1: int, a1: int, o2: int, a2: int, o3: int, a3: int
             ops.append((name, concrete_int(a, 0, len(EXTENSIONS) - 1)))
         else:
             ops.append((name, concrete_int(a, 0, 255)))
+    MUT = concrete_int(mut, 0, len(MUTATORS) - 1)
     with untraced():
         source = SOURCES[SRC]()
         if SRC == 1 and any(op == "extend" for op, _ in ops):
             pass
         before_attrs, before_sdl = attrs(source), source.to_string()
+        before_registry, before_probe = registry(source), probe(source, SRC)
         problem = ""
         # every operation is applied to the SAME source (quick: sequences of length 3 only when all three operations are of the same kind) (clone-based operations must leave it reusable)
         for op, arg in ops:
@@ -316,6 +358,17 @@ def _op_sequences(src: int, o1: int, a1: int, o2: int, a2: int, o3: int, a3: int
                 problem = "%s(%s) raised %r" % (op, arg, e)
                 break
             problem = check_step(source, before_attrs, before_sdl, res, op, arg)
+            if not problem and MUT:
+                # the derived schema is then used: resolvers registered on it must not show in the source
+                mutate(res, MUT)
+                if attrs(source) != before_attrs:
+                    problem = "registering on the derived schema modified the source's elements"
+                elif registry(source) != before_registry:
+                    problem = "registering on the derived schema modified the source's resolver registry"
+                elif source.to_string() != before_sdl:
+                    problem = "registering on the derived schema changed how the source prints"
+            if not problem and probe(source, SRC) != before_probe:
+                problem = "the source answers a query differently afterwards"
             if problem:
                 problem = "%s(%s): %s" % (op, arg, problem)
                 break
@@ -335,9 +388,11 @@ CONDITIONS = [
     Cond(
         name="op_sequences", fn=_op_sequences, quick=200, thorough=1200, per_path=90, shards_quick=20, shards_thorough=20,
         bound="2 source schemas (code-built with resolvers / default resolvers / type resolvers / subscription resolver / python names / defaults / descriptions / deprecations; SDL-built with registered resolvers) "
-              "x every sequence of 1..3 operations from {clone, camel-case, extend with one of 6 documents, visibility with an 8-bit predicate (all 256 for a single transform in the thorough tier; <= 1 bit or all bits inside sequences)} applied to the SAME source (quick: sequences of length 3 only when all three operations are of the same kind)",
-        symbolic={"src": "choice", "o1..o3": "choice: operations", "a1..a3": "choice: extension document / visibility bits"},
+              "x every sequence of 1..3 operations from {clone, camel-case, extend with one of 6 documents, visibility with an 8-bit predicate (all 256 for a single transform in the thorough tier; <= 1 bit or all bits inside sequences)} applied to the SAME source (quick: sequences of length 3 only when all three operations are of the same kind) "
+              "x 4 uses of each derived schema through the registration API (nothing / resolvers / default resolvers / subscription resolvers registered on it; for sequences of length <= 2): the source's elements, "
+              "resolver registries, printed SDL and the answer to a probe query stay what they were",
+        symbolic={"src": "choice", "o1..o3": "choice: operations", "a1..a3": "choice: extension document / visibility bits", "mut": "choice: what is registered on each derived schema afterwards"},
         assumptions=["oracle: closed() + attribute snapshot attrs() + introspection query; 'preserved' is checked for every element the operation does not target"],
-        witness={"src": 0, "o1": 0, "a1": 0, "o2": 1, "a2": 0, "o3": -1, "a3": 0},
+        witness={"src": 1, "o1": 0, "a1": 0, "o2": 1, "a2": 0, "o3": -1, "a3": 0, "mut": 1},
     ),
 ]
